@@ -6,7 +6,7 @@
    The tie to the C++: every trace of the real headers under the scheduler shim is replayed by the executable acceptor;
    [acceptor_simulation] / [accepted_trace_reachable] show that an accepted trace stays inside the reachable states. *)
 From Coq Require Import List Arith PeanoNat Permutation.
-From V Require Import C11.Glue C11.Ring C11.Ghost C11.Proofs C11.Sim C11.SpinProofs C11.Meets C11.Meets2 C11.Examples.
+From V Require Import C11.Glue C11.Ring C11.Ghost C11.Proofs C11.Sim C11.SpinProofs C11.Meets C11.Meets2 C11.ProofsSpec2 C11.Examples.
 Import ListNotations.
 Local Open Scope nat_scope.
 
@@ -157,3 +157,55 @@ Theorem ring_model_meets_spec_no_leak_clause : forall max_size scripts chunks tr
   check_no_leak (ring_summary a) = [].
 Proof. exact model_meets_spec_check_no_leak. Qed.
 Print Assumptions ring_model_meets_spec_no_leak_clause.
+
+(* ---- model_meets_spec at checker level for the remaining clauses of the ring SPEC: every complete trace the acceptor
+        accepts (well-formed case: element ids pairwise distinct) passes the history checkers *)
+Theorem ring_model_meets_spec_exactly_once : forall max_size scripts chunks trace a, 1 <= max_size -> NoDup (concat scripts) ->
+  replay_ring max_size scripts chunks trace = RDone a -> ph a = Dead ->
+  check_exactly_once (concat (split_results scripts (sR (ring_summary a)))) (ring_summary a) = [].
+Proof. exact model_meets_spec_exactly_once. Qed.
+Print Assumptions ring_model_meets_spec_exactly_once.
+
+Theorem ring_model_meets_spec_fifo : forall max_size scripts chunks trace a, 1 <= max_size -> NoDup (concat scripts) ->
+  replay_ring max_size scripts chunks trace = RDone a -> ph a = Dead ->
+  check_fifo (split_results scripts (sR (ring_summary a))) (ring_summary a) = [].
+Proof. exact model_meets_spec_fifo. Qed.
+Print Assumptions ring_model_meets_spec_fifo.
+
+Theorem ring_model_meets_spec_fail_keeps : forall max_size scripts chunks trace a, 1 <= max_size -> NoDup (concat scripts) ->
+  replay_ring max_size scripts chunks trace = RDone a -> ph a = Dead ->
+  check_fail_keeps (concat (split_results scripts (sR (ring_summary a)))) = [].
+Proof. exact model_meets_spec_fail_keeps. Qed.
+Print Assumptions ring_model_meets_spec_fail_keeps.
+
+Theorem ring_model_meets_spec_fail_legit : forall max_size scripts chunks trace a, 1 <= max_size -> NoDup (concat scripts) ->
+  replay_ring max_size scripts chunks trace = RDone a -> check_fail_legit max_size (events_of trace) = [].
+Proof. exact model_meets_spec_fail_legit. Qed.
+Print Assumptions ring_model_meets_spec_fail_legit.
+
+Theorem ring_model_meets_spec_bounded_queued : forall max_size scripts chunks trace a, 1 <= max_size -> NoDup (concat scripts) ->
+  replay_ring max_size scripts chunks trace = RDone a -> check (queued_scan max_size 0 0 (events_of trace)) "bounded:queued" = [].
+Proof. exact model_meets_spec_queued. Qed.
+Print Assumptions ring_model_meets_spec_bounded_queued.
+
+Theorem ring_model_meets_spec_history : forall max_size scripts chunks trace a, 1 <= max_size -> NoDup (concat scripts) ->
+  replay_ring max_size scripts chunks trace = RDone a -> ph a = Dead ->
+  check_history (split_results scripts (sR (ring_summary a))) (events_of trace) = [].
+Proof. exact model_meets_spec_history. Qed.
+Print Assumptions ring_model_meets_spec_history.
+
+(* ---- the central theorem: the whole ring SPEC on every complete accepted trace *)
+Theorem ring_model_meets_spec : forall max_size scripts chunks trace a, 1 <= max_size -> NoDup (concat scripts) ->
+  replay_ring max_size scripts chunks trace = RDone a -> ph a = Dead ->
+  spec_ring max_size scripts (events_of trace) (ring_summary a) = [].
+Proof. exact model_meets_spec_ring. Qed.
+Print Assumptions ring_model_meets_spec.
+
+(* ---- undo on accepted traces: the only exchange the acceptor accepts from a producer that lost the head CAS takes back
+        that producer's own element *)
+Theorem ring_accepted_undo_returns_own_element : forall max_size scripts chunks trace a t x h o a', 1 <= max_size ->
+  replay_ring max_size scripts chunks trace = RDone a -> ph a = Running -> t < np (core a) -> prod (core a) t = PUndo x h ->
+  accept_ring a (Thr t, o) = Accepted a' ->
+  o = OXchg (OSlot (h mod cap (core a))) 0 x /\ prod (core a') t = PCalled x.
+Proof. exact accepted_undo_returns_own_element. Qed.
+Print Assumptions ring_accepted_undo_returns_own_element.
